@@ -158,12 +158,12 @@ Proof.
 Qed.
 
 (* ------------------------------------------------------------------ KS function *)
-Lemma ks_sum_pos rho x : x <> [] -> 0 < rsum (map exp (vscale rho x)).
+Lemma ks_sum_pos rho x : x <> [] -> 0 < rsum (map exp (rscale rho x)).
 Proof.
-  destruct x as [|a x]; [congruence|]. intros _. cbn.
-  assert (0 <= rsum (map exp (vscale rho x))).
+  destruct x as [|a x]; [congruence|]. intros _. cbn [rscale map]. rewrite rsum_cons.
+  assert (0 <= rsum (map exp (rscale rho x))).
   { apply rsum_nonneg. intros t Ht. apply in_map_iff in Ht as [v [<- _]]. left. apply exp_pos. }
-  pose proof (exp_pos (rho * a)). unfold rsum in *. lra.
+  pose proof (exp_pos (rho * a)). unfold rscale in *. lra.
 Qed.
 
 Lemma exp_le_mono a b : a <= b -> exp a <= exp b.
@@ -175,22 +175,22 @@ Theorem ks_bounds_pos rho x M : 0 < rho -> is_max M x ->
 Proof.
   intros Hr HMx. pose proof (is_max_nonempty _ _ HMx) as Hx. destruct HMx as [HMin HM].
   assert (Hn : 0 < INR (length x)) by (apply INR_length_pos; exact Hx).
-  unfold ks. set (S := rsum (map exp (vscale rho x))).
+  unfold ks. set (S := rsum (map exp (rscale rho x))).
   assert (HS : 0 < S) by (apply ks_sum_pos; exact Hx).
   assert (Hlow : exp (rho * M) <= S).
   { apply rsum_ge_term.
     - intros u Hu. apply in_map_iff in Hu as [v [<- _]]. left. apply exp_pos.
-    - apply in_map_iff. exists (rho * M). split; [reflexivity|]. unfold vscale. apply in_map_iff.
+    - apply in_map_iff. exists (rho * M). split; [reflexivity|]. unfold rscale. apply in_map_iff.
       exists M. split; [reflexivity | exact HMin]. }
   assert (Hup : S <= INR (length x) * exp (rho * M)).
-  { unfold S. replace (length x) with (length (map exp (vscale rho x))) by (unfold vscale; rewrite !map_length; reflexivity).
+  { unfold S. replace (length x) with (length (map exp (rscale rho x))) by (unfold rscale; rewrite !map_length; reflexivity).
     apply rsum_le_bound. intros u Hu. apply in_map_iff in Hu as [w [<- Hw]].
-    unfold vscale in Hw. apply in_map_iff in Hw as [v [<- Hv]].
+    unfold rscale in Hw. apply in_map_iff in Hw as [v [<- Hv]].
     apply exp_le_mono. apply Rmult_le_compat_l; [lra | apply HM; exact Hv]. }
   assert (L1 : rho * M <= ln S).
   { rewrite <- (ln_exp (rho * M)). apply ln_le_mono; [apply exp_pos | exact Hlow]. }
   assert (L2 : ln S <= ln (INR (length x)) + rho * M).
-  { rewrite <- (ln_exp (rho * M)) at 2. rewrite <- ln_mult by (try exact Hn; apply exp_pos).
+  { rewrite <- (ln_exp (rho * M)) at 1. rewrite <- ln_mult by (try exact Hn; apply exp_pos).
     apply ln_le_mono; [exact HS | exact Hup]. }
   assert (Hi : 0 < / rho) by (apply Rinv_0_lt_compat; exact Hr).
   unfold Rdiv. rewrite Rmult_1_l. split.
@@ -205,22 +205,22 @@ Theorem ks_bounds_neg rho x m : rho < 0 -> is_min m x ->
 Proof.
   intros Hr Hmx. pose proof (is_min_nonempty _ _ Hmx) as Hx. destruct Hmx as [Hmin Hm].
   assert (Hn : 0 < INR (length x)) by (apply INR_length_pos; exact Hx).
-  unfold ks. set (S := rsum (map exp (vscale rho x))).
+  unfold ks. set (S := rsum (map exp (rscale rho x))).
   assert (HS : 0 < S) by (apply ks_sum_pos; exact Hx).
   assert (Hlow : exp (rho * m) <= S).
   { apply rsum_ge_term.
     - intros u Hu. apply in_map_iff in Hu as [v [<- _]]. left. apply exp_pos.
-    - apply in_map_iff. exists (rho * m). split; [reflexivity|]. unfold vscale. apply in_map_iff.
+    - apply in_map_iff. exists (rho * m). split; [reflexivity|]. unfold rscale. apply in_map_iff.
       exists m. split; [reflexivity | exact Hmin]. }
   assert (Hup : S <= INR (length x) * exp (rho * m)).
-  { unfold S. replace (length x) with (length (map exp (vscale rho x))) by (unfold vscale; rewrite !map_length; reflexivity).
+  { unfold S. replace (length x) with (length (map exp (rscale rho x))) by (unfold rscale; rewrite !map_length; reflexivity).
     apply rsum_le_bound. intros u Hu. apply in_map_iff in Hu as [w [<- Hw]].
-    unfold vscale in Hw. apply in_map_iff in Hw as [v [<- Hv]].
+    unfold rscale in Hw. apply in_map_iff in Hw as [v [<- Hv]].
     apply exp_le_mono. specialize (Hm v Hv). nra. }
   assert (L1 : rho * m <= ln S).
   { rewrite <- (ln_exp (rho * m)). apply ln_le_mono; [apply exp_pos | exact Hlow]. }
   assert (L2 : ln S <= ln (INR (length x)) + rho * m).
-  { rewrite <- (ln_exp (rho * m)) at 2. rewrite <- ln_mult by (try exact Hn; apply exp_pos).
+  { rewrite <- (ln_exp (rho * m)) at 1. rewrite <- ln_mult by (try exact Hn; apply exp_pos).
     apply ln_le_mono; [exact HS | exact Hup]. }
   assert (Hi : / rho < 0) by (apply Rinv_lt_0_compat; exact Hr).
   assert (Hri : rho * / rho = 1) by (apply Rinv_r; lra).
@@ -230,7 +230,7 @@ Proof.
   - replace (m + ln (INR (length x)) * / rho) with (/ rho * (ln (INR (length x)) + rho * m)).
     + apply Rmult_le_compat_neg_l; [lra | exact L2].
     + rewrite Rmult_plus_distr_l, <- E1. lra.
-  - rewrite E1 at 2. apply Rmult_le_compat_neg_l; [lra | exact L1].
+  - rewrite E1 at 1. apply Rmult_le_compat_neg_l; [lra | exact L1].
 Qed.
 
 (* ------------------------------------------------------------------ soft max / min *)
@@ -238,19 +238,19 @@ Qed.
 Lemma softminmax_quot alpha x : x <> [] ->
   softminmax alpha x = rsum (map (fun v => v * exp (alpha * v)) x) / rsum (map (fun v => exp (alpha * v)) x).
 Proof.
-  intros Hx. unfold softminmax, softmax, vscale. rewrite !map_map.
+  intros Hx. unfold softminmax, softmax, rscale. rewrite !map_map.
   set (E := rsum (map (fun v => exp (alpha * v)) x)).
   assert (HE : 0 < E).
-  { unfold E. pose proof (ks_sum_pos alpha x Hx) as H. unfold vscale in H. rewrite map_map in H. exact H. }
-  assert (G : forall l, rsum (vmul l (map (fun v => exp (alpha * v) / E) l)) = rsum (map (fun v => v * exp (alpha * v)) l) / E).
+  { unfold E. pose proof (ks_sum_pos alpha x Hx) as H. unfold rscale in H. rewrite map_map in H. exact H. }
+  assert (G : forall l, rsum (rmul l (map (fun v => exp (alpha * v) / E) l)) = rsum (map (fun v => v * exp (alpha * v)) l) / E).
   { induction l as [|a l IH]; cbn.
     - unfold Rdiv. lra.
-    - unfold vmul, rsum in IH. unfold rsum. rewrite IH. field. lra. }
+    - unfold rmul, rsum in IH. unfold rsum. rewrite IH. field. lra. }
   apply G.
 Qed.
 
 Lemma exp_sum_pos alpha x : x <> [] -> 0 < rsum (map (fun v => exp (alpha * v)) x).
-Proof. intros Hx. pose proof (ks_sum_pos alpha x Hx) as H. unfold vscale in H. rewrite map_map in H. exact H. Qed.
+Proof. intros Hx. pose proof (ks_sum_pos alpha x Hx) as H. unfold rscale in H. rewrite map_map in H. exact H. Qed.
 
 (* weighted average with positive weights lies between min and max: any alpha *)
 Theorem softminmax_le_max alpha x M : is_max M x -> softminmax alpha x <= M.
@@ -283,7 +283,7 @@ Lemma cross_sum f a (l : list R) :
 Proof.
   induction l as [|b l IH].
   - cbn. lra.
-  - cbn [map rsum fold_right length]. rewrite S_INR. unfold rsum in *. rewrite IH. rewrite map_id. ring.
+  - cbn [map length]. rewrite !rsum_cons, S_INR, IH. ring.
 Qed.
 
 Lemma chebyshev_similar f (l : list R) : (forall a b, (a - b) * (f a - f b) >= 0) ->
@@ -291,10 +291,10 @@ Lemma chebyshev_similar f (l : list R) : (forall a b, (a - b) * (f a - f b) >= 0
 Proof.
   intros Hf. induction l as [|a l IH].
   - cbn. lra.
-  - cbn [map rsum fold_right length]. rewrite S_INR.
+  - cbn [map length]. rewrite !rsum_cons, S_INR.
     assert (Hc : 0 <= rsum (map (fun v => (a - v) * (f a - f v)) l)).
     { apply rsum_nonneg. intros t Ht. apply in_map_iff in Ht as [v [<- _]]. specialize (Hf a v). lra. }
-    rewrite cross_sum in Hc. unfold rsum in *. nra.
+    rewrite cross_sum in Hc. nra.
 Qed.
 
 Lemma chebyshev_opposite f (l : list R) : (forall a b, (a - b) * (f a - f b) <= 0) ->
@@ -302,12 +302,12 @@ Lemma chebyshev_opposite f (l : list R) : (forall a b, (a - b) * (f a - f b) <= 
 Proof.
   intros Hf. induction l as [|a l IH].
   - cbn. lra.
-  - cbn [map rsum fold_right length]. rewrite S_INR.
+  - cbn [map length]. rewrite !rsum_cons, S_INR.
     assert (Hc : 0 <= rsum (map (fun v => - ((a - v) * (f a - f v))) l)).
     { apply rsum_nonneg. intros t Ht. apply in_map_iff in Ht as [v [<- _]]. specialize (Hf a v). lra. }
     replace (map (fun v => - ((a - v) * (f a - f v))) l) with (map (fun v => -1 * ((a - v) * (f a - f v))) l) in Hc
       by (apply map_ext; intros; ring).
-    rewrite rsum_map_scale, cross_sum in Hc. unfold rsum in *. nra.
+    rewrite rsum_map_scale, cross_sum in Hc. nra.
 Qed.
 
 Lemma exp_similar alpha a b : 0 <= alpha -> (a - b) * (exp (alpha * a) - exp (alpha * b)) >= 0.
@@ -391,21 +391,27 @@ Qed.
 (* the recurrence  s_0 = t_0/a_0,  s_k = d*s_(k-1) + (1-d)*t_k/a_k  for every call sequence *)
 Theorem scaling_recurrence (d : R) (calls : list (R * R)) :
   let s := scaling_run d None calls in
-  length s = length calls /  (forall t a, nth_error calls 0 = Some (t, a) -> nth_error s 0 = Some (t / a)) /  (forall k t a sp, nth_error calls (S k) = Some (t, a) -> nth_error s k = Some sp ->
+  length s = length calls /\
+  (forall t a, nth_error calls 0 = Some (t, a) -> nth_error s 0 = Some (t / a)) /\
+  (forall k t a sp, nth_error calls (S k) = Some (t, a) -> nth_error s k = Some sp ->
                     nth_error s (S k) = Some (d * sp + (1 - d) * (t / a))).
 Proof.
   cbn zeta.
   assert (G : forall calls sf,
-    length (scaling_run d sf calls) = length calls /    (forall t a, nth_error calls 0 = Some (t, a) -> nth_error (scaling_run d sf calls) 0 = Some (scaling_step d sf t a)) /    (forall k t a sp, nth_error calls (S k) = Some (t, a) -> nth_error (scaling_run d sf calls) k = Some sp ->
+    length (scaling_run d sf calls) = length calls /\
+    (forall t a, nth_error calls 0 = Some (t, a) -> nth_error (scaling_run d sf calls) 0 = Some (scaling_step d sf t a)) /\
+    (forall k t a sp, nth_error calls (S k) = Some (t, a) -> nth_error (scaling_run d sf calls) k = Some sp ->
                       nth_error (scaling_run d sf calls) (S k) = Some (d * sp + (1 - d) * (t / a)))).
   { clear calls. induction calls as [|[t0 a0] r IH]; intros sf.
     - cbn. repeat split; intros; discriminate.
-    - cbn [scaling_run length]. destruct (IH (Some (scaling_step d sf t0 a0))) as [L [F R]].
+    - cbn [scaling_run length]. destruct (IH (Some (scaling_step d sf t0 a0))) as [L [F Rc]].
       repeat split.
       + rewrite L. reflexivity.
       + intros t a E. cbn in E. injection E as <- <-. reflexivity.
       + intros k t a sp E Es. cbn [nth_error] in E. destruct k as [|k].
-        * cbn in Es. injection Es as <-. cbn [nth_error]. rewrite (F t a E). reflexivity.
-        * cbn [nth_error] in *. apply (R k t a sp E Es). }
-  destruct (G calls None) as [L [F R]]. repeat split; assumption.
+        * cbn [nth_error] in Es. injection Es as Es. subst sp.
+          change (nth_error (scaling_run d (Some (scaling_step d sf t0 a0)) r) 0 = Some (d * scaling_step d sf t0 a0 + (1 - d) * (t / a))).
+          rewrite (F t a E). reflexivity.
+        * cbn [nth_error] in *. apply (Rc k t a sp E Es). }
+  destruct (G calls None) as [L [F Rc]]. repeat split; assumption.
 Qed.
